@@ -80,6 +80,68 @@ theorem pureFrame_set_none {fr : Frame} (h : PureFrame fr) :
   | nil => simp
   | cons a t => simp
 
+/-- Evaluating an optional bound that passes both rule sets does not change the world. -/
+theorem evalOpt_pure {p : Prog} {fuel : Nat} (ih : PureAt p fuel) (fr : Frame) (o : Option Expr)
+    (w : World) (v : Nat) (w' : World) (he : optEffect o = .pure) (hc : optCheckOk p o = true)
+    (h : evalOpt (fun e w => evalE p fuel e w fr) o w = some (v, w')) : w' = w := by
+  cases o with
+  | none => simp [evalOpt] at h; exact h.2.symm
+  | some e => exact ih.expr e w fr v w' he hc h
+
+theorem sref_effect_sub {f : Nat} {lo hi : Option Expr} (h : (SRef.sub f lo hi).effect = .pure) :
+    optEffect lo = .pure ∧ optEffect hi = .pure := by
+  simp only [SRef.effect] at h
+  split at h
+  · cases h
+  · rename_i hl
+    exact ⟨by cases hle : optEffect lo <;> simp_all, h⟩
+
+/-- Evaluating a slice expression whose bounds are effect-free (as the parser
+    demands) and well-marked does not change the world. -/
+theorem evalWith_pure {p : Prog} {fuel : Nat} (ih : PureAt p fuel) (fr : Frame) (s : SRef)
+    (w : World) (q : Option Ptr) (w' : World) (hpo : s.parseOk = true) (hco : s.checkOk p = true)
+    (h : s.evalWith (fun e w => evalE p fuel e w fr) fr w = some (q, w')) : w' = w := by
+  cases s with
+  | arg i => simp [SRef.evalWith] at h; exact h.2.symm
+  | loc v => simp [SRef.evalWith] at h; exact h.2.symm
+  | fld f => simp [SRef.evalWith] at h; exact h.2.symm
+  | pal => simp [SRef.evalWith] at h; exact h.2.symm
+  | sub f lo hi =>
+    simp only [SRef.parseOk, Bool.and_eq_true, decide_eq_true_eq] at hpo
+    obtain ⟨hlo, hhi⟩ := sref_effect_sub hpo.1
+    simp only [SRef.checkOk, Bool.and_eq_true] at hco
+    simp only [SRef.evalWith] at h
+    cases h1 : evalOpt (fun e w => evalE p fuel e w fr) lo w with
+    | none => simp [h1] at h
+    | some r1 =>
+      obtain ⟨l, w1⟩ := r1
+      simp only [h1] at h
+      cases h2 : evalOpt (fun e w => evalE p fuel e w fr) hi w1 with
+      | none => simp [h2] at h
+      | some r2 =>
+        obtain ⟨hv, w2⟩ := r2
+        simp only [h2, Option.some.injEq, Prod.mk.injEq] at h
+        have e1 := evalOpt_pure ih fr lo w l w1 hlo hco.1 h1
+        have e2 := evalOpt_pure ih fr hi w1 hv w2 hhi hco.2 h2
+        rw [← h.2, e2, e1]
+
+/-- In a pure function only a local can evaluate to a writable slice value, and
+    in a pure frame it is null: every slice expression that may be stored
+    through (`readOnly .pure = false`) evaluates to the null slice. -/
+theorem evalWith_writable_null {ev : Expr → World → Option (Nat × World)} {fr : Frame} {s : SRef}
+    {w : World} {q : Option Ptr} {w' : World} (hro : s.readOnly .pure = false) (hfr : PureFrame fr)
+    (h : s.evalWith ev fr w = some (q, w')) : q = none := by
+  cases s with
+  | arg i => simp [SRef.readOnly] at hro
+  | fld f => simp [SRef.readOnly] at hro
+  | pal => simp [SRef.readOnly] at hro
+  | sub f lo hi => simp [SRef.readOnly] at hro
+  | loc y =>
+    have : y = 0 := by simpa [SRef.readOnly] using hro
+    subst this
+    simp only [SRef.evalWith, Option.some.injEq, Prod.mk.injEq] at h
+    rw [← h.1]; exact hfr
+
 theorem pureAt_succ (p : Prog) (hp : tcheck p = .ok) (fuel : Nat) (ih : PureAt p fuel) :
     PureAt p (fuel + 1) where
   expr := by
@@ -141,8 +203,13 @@ theorem pureAt_succ (p : Prog) (hp : tcheck p = .ok) (fuel : Nat) (ih : PureAt p
       obtain ⟨w1, fr1⟩ := r1
       simp only [h1] at h
       have hs := ih.stmt md.body w _ w1 fr1 hpo.1.1 hco.1 (by simp [PureFrame]) h1
-      have he := ih.expr md.result w1 fr1 r w' hpo.1.2 hco.2 h
-      rw [he, hs.1]
+      cases h2 : evalE p fuel md.result w1 fr1 with
+      | none => simp [h2] at h
+      | some r2 =>
+        obtain ⟨v, w2⟩ := r2
+        simp only [h2, Option.some.injEq, Prod.mk.injEq] at h
+        have he := ih.expr md.result w1 fr1 v w2 hpo.1.2 hco.2 h2
+        rw [← h.2, he, hs.1]
   stmt := by
     intro s w fr w' fr' hpo hco hfr h
     cases s with
@@ -199,52 +266,47 @@ theorem pureAt_succ (p : Prog) (hp : tcheck p = .ok) (fuel : Nat) (ih : PureAt p
       | none => simp [h1] at h
       | some r1 =>
         obtain ⟨v, w1⟩ := r1
-        simp only [h1, Option.some.injEq, Prod.mk.injEq] at h
-        have e1 := ih.expr e w fr v w1 hpo.1.2 hco.2 h1
-        have hnull : r.eval fr = none := by
-          cases r with
-          | arg i => rcases hpo.1.1 with h' | h' <;> simp [SRef.rootedAtThisOrArgs] at h'
-          | fld f => rcases hpo.1.1 with h' | h' <;> simp [SRef.rootedAtThisOrArgs] at h'
-          | pal => rcases hpo.1.1 with h' | h' <;> simp [SRef.rootedAtThisOrArgs] at h'
-          | loc x =>
-            have : x = 0 := by
-              have := hco.1
-              simp [SRef.readOnly] at this
-              exact this
-            subst this
-            exact hfr
-        rw [hnull] at h
-        refine ⟨by rw [← h.1]; simpa [World.poke] using e1, ?_⟩
-        rw [← h.2]; exact hfr
+        simp only [h1] at h
+        have e1 := ih.expr e w fr v w1 hpo.1.1.2 hco.1.2 h1
+        cases h2 : r.evalWith (fun e w => evalE p fuel e w fr) fr w1 with
+        | none => simp [h2] at h
+        | some r2 =>
+          obtain ⟨q, w2⟩ := r2
+          simp only [h2, Option.some.injEq, Prod.mk.injEq] at h
+          have e2 := evalWith_pure ih fr r w1 q w2 (by simpa [SRef.parseOk] using hpo.2) hco.2 h2
+          have hnull : q = none := evalWith_writable_null hco.1.1 hfr h2
+          subst hnull
+          refine ⟨by rw [← h.1, e2]; simpa [World.poke] using e1, ?_⟩
+          rw [← h.2]; exact hfr
     | bind x r =>
-      simp only [Stmt.checkOk, Bool.or_eq_true, Bool.not_eq_true', decide_eq_true_eq] at hco
-      simp only [execS, Option.some.injEq, Prod.mk.injEq] at h
-      refine ⟨h.1.symm, ?_⟩
-      rw [← h.2]
-      by_cases hx : x = 0
-      · subst hx
-        have hro : r.readOnly .pure = false := by
-          rcases hco with h' | h'
-          · exact absurd rfl h'
-          · exact h'
-        have hnull : r.eval fr = none := by
-          cases r with
-          | arg i => simp [SRef.readOnly] at hro
-          | fld f => simp [SRef.readOnly] at hro
-          | pal => simp [SRef.readOnly] at hro
-          | loc y =>
-            have : y = 0 := by simpa [SRef.readOnly] using hro
-            subst this
-            exact hfr
-        rw [hnull]
-        exact pureFrame_set_none hfr
-      · exact pureFrame_set_ne _ hx hfr
-    | copy mk d r =>
       simp only [Stmt.parseOk] at hpo
+      simp only [Stmt.checkOk, Bool.and_eq_true, Bool.or_eq_true, Bool.not_eq_true',
+        decide_eq_true_eq] at hco
+      simp only [execS] at h
+      cases h2 : r.evalWith (fun e w => evalE p fuel e w fr) fr w with
+      | none => simp [h2] at h
+      | some r2 =>
+        obtain ⟨q, w1⟩ := r2
+        simp only [h2, Option.some.injEq, Prod.mk.injEq] at h
+        have e2 := evalWith_pure ih fr r w q w1 hpo hco.2 h2
+        refine ⟨by rw [← h.1, e2], ?_⟩
+        rw [← h.2]
+        by_cases hx : x = 0
+        · subst hx
+          have hro : r.readOnly .pure = false := by
+            rcases hco.1 with h' | h'
+            · exact absurd rfl h'
+            · exact h'
+          have hnull : q = none := evalWith_writable_null hro hfr h2
+          rw [hnull]
+          exact pureFrame_set_none hfr
+        · exact pureFrame_set_ne _ hx hfr
+    | copy mk d r =>
+      simp only [Stmt.parseOk, Bool.and_eq_true] at hpo
       simp only [Stmt.checkOk, Bool.and_eq_true, decide_eq_true_eq] at hco
-      have := Eff.le_pure hpo
+      have := Eff.le_pure hpo.1.1
       rw [this] at hco
-      exact absurd hco.1 (by decide)
+      exact absurd hco.1.1.1 (by decide)
     | callS mk m a =>
       simp only [Stmt.parseOk, Bool.and_eq_true, decide_eq_true_eq] at hpo
       simp only [Stmt.checkOk, Bool.and_eq_true] at hco
@@ -304,7 +366,7 @@ def demoWorld : World := ⟨[10, 20], [[1, 2, 3, 4], [5, 6, 7, 8]], [[9, 9], [0]
 def demoCaller : Frame := ⟨0, [0, 0], [none, none], [some (.buf 0), none], none⟩
 
 example : tcheck demo = .ok := by decide
-example : callM demo 20 0 3 demoCaller demoWorld = some (15, demoWorld) := by decide
+example : callM demo 20 0 3 demoCaller demoWorld = some (3, demoWorld) := by decide
 /-- the impure method does change the world (the semantics can observe writes) -/
 example : (callM demo 20 1 3 demoCaller demoWorld).map (·.2 == demoWorld) = some false := by decide
 
@@ -318,6 +380,29 @@ example : tcheck [⟨.pure, .seq (.bind 1 (.arg 0)) (.setBuf (.loc 1) (.lit 1)),
 example : tcheck [⟨.pure, .copy .impure (.loc 0) (.arg 1), .lit 0⟩] = .rejectParse := by decide
 example : tcheck [⟨.impure, .setFld 0 (.lit 1), .lit 0⟩, ⟨.pure, .callS .impure 0 (.lit 1), .lit 0⟩] = .rejectParse := by decide
 example : tcheck [⟨.impure, .setFld 0 (.lit 1), .lit 0⟩, ⟨.pure, .callS .pure 0 (.lit 1), .lit 0⟩] = .rejectCheck := by decide
+
+/-- Slice bounds: an impure call hidden in the LOWER bound of a slice expression
+    (the middle child of the AST node, `NewExpr`'s MHS) is an effect-ful
+    sub-expression; so is one in the upper bound; a pure call there is fine, and
+    slicing the receiver's array in a pure method gives a read-only slice. -/
+example : tcheck [⟨.impure, .setFld 0 (.lit 1), .lit 0⟩,
+    ⟨.pure, .bind 1 (.sub 0 (some (.call .impure 0 (.lit 2))) none), .lit 0⟩] = .rejectParse := by decide
+example : tcheck [⟨.impure, .setFld 0 (.lit 1), .lit 0⟩,
+    ⟨.pure, .bind 1 (.sub 0 none (some (.call .impure 0 (.lit 2)))), .lit 0⟩] = .rejectParse := by decide
+example : tcheck [⟨.impure, .setFld 0 (.lit 1), .lit 0⟩,
+    ⟨.impure, .bind 0 (.sub 0 (some (.call .impure 0 (.lit 2))) none), .lit 0⟩] = .rejectParse := by decide
+example : tcheck [⟨.pure, .skip, .lit 0⟩,
+    ⟨.pure, .bind 1 (.sub 0 (some (.call .pure 0 (.lit 2))) (some (.lit 1))), .lit 0⟩] = .ok := by decide
+example : tcheck [⟨.pure, .bind 0 (.sub 0 none (some (.lit 2))), .lit 0⟩] = .rejectCheck := by decide
+example : tcheck [⟨.impure, .seq (.bind 0 (.sub 0 (some (.lit 1)) none)) (.setBuf (.loc 0) (.lit 9)), .lit 0⟩] = .ok := by decide
+/-- … and that impure method writes `arr0[1]` (sub-slices alias the receiver). -/
+example : (callM [⟨.impure, .seq (.bind 0 (.sub 0 (some (.lit 1)) none)) (.setBuf (.loc 0) (.lit 9)), .lit 0⟩]
+    20 0 0 demoCaller demoWorld).map (·.2.arrs) = some [[1, 9, 3, 4], [5, 6, 7, 8]] := by decide
+/-- If the lower bound's effect bits were dropped (so that the parser accepted
+    this pure method), evaluating the bound would change the receiver: -/
+example : (execS [⟨.impure, .setFld 0 (.lit 77), .lit 0⟩] 9 .pure
+    (.bind 1 (.sub 0 (some (.call .impure 0 (.lit 2))) none)) demoWorld demoCaller).map (·.1.flds)
+      = some [77, 20] := by decide
 
 /-- Without the repair of `tcheckExprCall` (call results writable in a pure
     function: `SRef.readOnly .pure .pal = false`) the theorem would be false:
